@@ -130,3 +130,7 @@ RULE = ("leg A: TLC explores CsrEventMon_MC (the CsrMux and EventMon specificati
 
 def main(tier):
     return hwcheck.check("C14", tier, Adapter(), RULE)
+
+
+def replay(path):
+    return hwcheck.replay(path, [Adapter()])
